@@ -215,6 +215,80 @@ impl Prog {
         }
     }
 
+    fn flatten(&self, op: u32, n: usize, out: &mut Vec<usize>) {
+        let nd = &self.nodes[n];
+        if nd.op == op {
+            self.flatten(op, nd.a, out);
+            self.flatten(op, nd.b, out);
+        } else {
+            out.push(n);
+        }
+    }
+
+    /// replay the program through the n-ary list constructors where a chain of the same operator occurs
+    pub fn build_l(&self, re: &mut ReManager, n: usize) -> RegLan {
+        let nd = &self.nodes[n];
+        match nd.op {
+            T_CONCAT | T_UNION | T_INTER => {
+                let mut ops = Vec::new();
+                self.flatten(nd.op, n, &mut ops);
+                let mut v: Vec<RegLan> = Vec::new();
+                for k in ops {
+                    v.push(self.build_l(re, k));
+                }
+                match nd.op {
+                    T_CONCAT => re.concat_list(v),
+                    T_UNION => re.union_list(v),
+                    _ => re.inter_list(v),
+                }
+            }
+            T_DIFF => {
+                // diff(diff(a, b), c) = diff_list(a, [b, c])
+                let mut subs = Vec::new();
+                let mut cur = n;
+                while self.nodes[cur].op == T_DIFF {
+                    subs.push(self.nodes[cur].b);
+                    cur = self.nodes[cur].a;
+                }
+                let a = self.build_l(re, cur);
+                let mut v: Vec<RegLan> = Vec::new();
+                for k in subs.iter().rev() {
+                    v.push(self.build_l(re, *k));
+                }
+                re.diff_list(a, v)
+            }
+            T_COMP => {
+                let a = self.build_l(re, nd.a);
+                re.complement(a)
+            }
+            T_STAR => {
+                let a = self.build_l(re, nd.a);
+                re.star(a)
+            }
+            T_PLUS => {
+                let a = self.build_l(re, nd.a);
+                re.plus(a)
+            }
+            T_OPT => {
+                let a = self.build_l(re, nd.a);
+                re.opt(a)
+            }
+            T_POWER => {
+                let a = self.build_l(re, nd.a);
+                re.exp(a, nd.x)
+            }
+            T_LOOP => {
+                let a = self.build_l(re, nd.a);
+                re.smt_loop(a, nd.x, nd.y)
+            }
+            T_LOOPINF => {
+                let a = self.build_l(re, nd.a);
+                re.mk_loop(a, LoopRange::infinite(nd.x))
+            }
+            _ => self.build(re, n),
+        }
+    }
+
     /// replay the program through the SMT-LIB-named wrappers (thread-local manager)
     pub fn build_w(&self, n: usize) -> RegLan {
         let nd = &self.nodes[n];
@@ -488,6 +562,12 @@ pub extern "C" fn vh_c01_member() {
         let e = cx.prog.build(&mut re, cx.prog.root);
         check(e.nullable == want0, 1);
         check(re.str_in_re(&ws, e) == want, 2);
+    } else if cx.api == 2 {
+        // n-ary list constructors; also: same term as the binary constructors build in the same manager
+        let mut re = ReManager::new();
+        let e = cx.prog.build_l(&mut re, cx.prog.root);
+        check(e.nullable == want0, 5);
+        check(re.str_in_re(&ws, e) == want, 6);
     } else {
         let e = cx.prog.build_w(cx.prog.root);
         check(e.nullable == want0, 3);
@@ -879,8 +959,19 @@ pub extern "C" fn vh_c07_hashcons() {
     let mut re0 = ReManager::new();
     let e0 = cx.prog.build(&mut re0, cx.prog.root);
     let ws = smt(&w);
+    // what the derivative cache already holds must not matter: in the fresh manager every sub-term is queried first
+    // (so derivatives of operands are cached before those of the terms built from them, complements included)
+    let subs: Vec<RegLan> = sub_terms(e0).collect();
+    for t in subs.iter() {
+        let _ = re0.str_in_re(&ws, *t);
+    }
     check(re0.str_in_re(&ws, e0) == want, 3);
     check(re.str_in_re(&ws, e1) == want, 4);
+    let ce = re.complement(e1);
+    check(re.str_in_re(&ws, ce) == !want, 8);
+    check(re.str_in_re(&ws, e1) == want, 9);
+    let ce0 = re0.complement(e0);
+    check(re0.str_in_re(&ws, ce0) == !want, 10);
     // equality is identity, complement is an involution without fixed points
     pool.push(e1);
     let mut i = 0;
